@@ -16,7 +16,7 @@ import re
 
 from . import core
 from .catalogue import in_a, in_b, out_ts, out_tsk, out_y, out_z
-from .edl import AND, C, OR, P, block, build_engine, engine, rule
+from .edl import AND, C, OR, P, block, build_engine, engine, rule, term
 from .tlc import MachineryError, write_cfg
 from .xreal import Q, to_float
 
@@ -44,6 +44,11 @@ def bases():
     es.append(engine("weighted-two-kinds", [in_a(), in_b()], [out_tsk(), out_ts()],
                      [block("rb", [rule(P("a", "lo"), [C("w", "up"), C("u", "c1")]), rule(P("b", "hi"), [C("u", "lin"), C("w", "dn")], weight="1/2"),
                                    rule(P("a", "hi"), [C("w", "cv")])], implication="none")]))
+    # degenerate but legal parameters: a sigmoid of slope zero (a constant 1/2) declares itself monotonic like every sigmoid
+    w = out_tsk()
+    w["terms"] += [term("flat", "Sigmoid", "1/2", 0), term("flatneg", "Sigmoid", "1/2", "-0")]
+    es.append(engine("tsukamoto-flat-sigmoid", [in_a(), in_b()], [w],
+                     [block("rb", [rule(P("a", "lo"), [C("w", "up")]), rule(P("b", "hi"), [C("w", "flat")]), rule(P("a", "hi"), [C("w", "flatneg")])], implication="none")]))
     e = engine("disabled-rule-uses-or", [in_a(), in_b()], [out_y()], [block("rb", [copy.deepcopy(r_plain), dict(copy.deepcopy(r_or), enabled=False)])])
     es.append(e)
     e = engine("disabled-output", [in_a(), in_b()], [out_y(enabled=False), out_z()],
